@@ -313,7 +313,8 @@ def rule_d(ctx):
 
     def run(flags, lease_pub_none):
         heap = {(frame_term, k): ctx_const(v) for k, v in flags.items()}
-        return ctx.paths(hs, slots.RSocketServer, exc=('app',), initial_heap=heap,
+        # what on_setup raises may be anything - one of the library's own protocol errors included
+        return ctx.paths(hs, slots.RSocketServer, exc=('app', 'protocol'), initial_heap=heap,
                          no_inline={'_subscribe_to_lease_publisher'})
 
     from ..interp import const as ctx_const
@@ -361,7 +362,7 @@ def rule_d(ctx):
         if len(a) != 3 or a[0] != ('attr', frame_term, 'data_encoding') or a[1] != ('attr', frame_term,
                                                                                       'metadata_encoding'):
             ok_args = False
-        app_raise = [e for e in p.events if e.kind == 'raise' and e.data.get('implicit') == 'app' and
+        app_raise = [e for e in p.events if e.kind == 'raise' and e.data.get('implicit') in ('app', 'protocol') and
                      e.data.get('call') == calls[0].seq]
         if app_raise:
             n_raise += 1
@@ -420,7 +421,8 @@ def rule_e(ctx):
                 isinstance(n.targets[0].value, ast.Name) and n.targets[0].value.id == 'self':
             names = {x.id for x in ast.walk(n.value) if isinstance(x, ast.Name)}
             from_params = names & params
-            if from_params and not (names - params - {'ensure_encoding_name', 'timedelta', 'self'}):
+            if from_params:
+                # (what the value is - the argument unmodified - is C16.c; here only: who else writes it)
                 config[n.targets[0].attr] = sorted(from_params)[0]
     # those the connection set-up reads
     readers = [base.lookup('connect'), base.lookup('_create_setup_frame'), base.lookup('send_request'),
